@@ -50,6 +50,9 @@ type pcase struct {
 	Manifest bool       `json:"manifest"` // files wrapped in a directory manifest (the /aurora upload path) or one raw file
 	Files    []fileSpec `json:"files"`
 	Muts     []mut      `json:"muts"`
+	// Prior: what the same (long-lived, per-node) traversal service was handed before the response
+	// under test: 0 nothing, 1 the honest response, 2 the honest response cut short by one entry.
+	Prior int `json:"prior,omitempty"`
 }
 
 // buildHonest uploads the content through the real pipeline / manifest code into a
@@ -303,7 +306,26 @@ func runPyramid(c pcase) (res presult, sig string, err error) {
 	res.rawMulti = !c.Manifest && c.Files[0].Len > ref.ChunkSize
 
 	dst := newRecStore()
-	_, _, gerr := traversal.New(dst).GetChunkHashes(ctx, root, pyr)
+	tr := traversal.New(dst)
+	if c.Prior > 0 {
+		first := make(map[string][]byte, len(honest))
+		keys := sortedKeys(honest)
+		drop := ""
+		if c.Prior == 2 && len(keys) > 1 {
+			drop = keys[len(keys)-1]
+			if drop == rootKey {
+				drop = keys[len(keys)-2]
+			}
+		}
+		for _, k := range keys {
+			if k != drop {
+				first[k] = append([]byte{}, honest[k]...)
+			}
+		}
+		_, _, _ = tr.GetChunkHashes(ctx, root, first)
+		res.labels = append(res.labels, fmt.Sprintf("noop-prior-delivery-%d", c.Prior))
+	}
+	_, _, gerr := tr.GetChunkHashes(ctx, root, pyr)
 	res.accepted = gerr == nil
 	puts := dst.snapshotPuts()
 	res.puts = len(puts)
@@ -369,6 +391,7 @@ var layouts = func() []pcase {
 func genPyramidCase(t *rapid.T) pcase {
 	lay := layouts[rapid.IntRange(0, len(layouts)-1).Draw(t, "layout")]
 	c := pcase{Manifest: lay.Manifest, Files: append([]fileSpec{}, lay.Files...)}
+	c.Prior = rapid.SampledFrom([]int{0, 0, 1, 2}).Draw(t, "prior")
 	nm := rapid.SampledFrom([]int{0, 1, 1, 1, 1, 2, 2, 3}).Draw(t, "nmuts")
 	for i := 0; i < nm; i++ {
 		m := mut{
@@ -426,7 +449,7 @@ func recordPyramid(r *evid.Rec, c pcase, res presult) {
 	r.Sample(map[string]interface{}{"target": "pyramid", "case": c, "accepted": res.accepted, "stored": res.puts, "entries": res.entries})
 }
 
-const rulePyramid = "pyramid: rapid draws content (one raw file, or 1-3 files in a directory manifest; contents from a fixed pool of 26 layouts with file sizes 1..5000 bytes and around 1, 2 and 3 chunks of 256KiB), uploads it through the real pipeline+manifest code, takes the serving peer's honest traversal.GetPyramid map and applies 0-3 alterations aimed at the root or another entry: extra valid entry, extra entry with wrong / odd-length / upper-case key, entry re-keyed to upper case, payload byte altered, payloads swapped, payload replaced by another valid chunk, truncated, zero-extended, oversized with correct 256KiB+8 prefix, oversized random, dropped, emptied. The real traversal.GetChunkHashes(root, pyramid) (the body of chunkinfo.onChunkPyramidResp) runs against a recording store; oracle: every store.Put satisfies RefCACValid or RefSOCValid for its address; the unaltered pyramid is accepted and its root stored. Non-trivial = at least one effective alteration; distinct by hash of the case"
+const rulePyramid = "pyramid: rapid draws content (one raw file, or 1-3 files in a directory manifest; contents from a fixed pool of 26 layouts with file sizes 1..5000 bytes and around 1, 2 and 3 chunks of 256KiB), uploads it through the real pipeline+manifest code, takes the serving peer's honest traversal.GetPyramid map and applies 0-3 alterations aimed at the root or another entry: extra valid entry, extra entry with wrong / odd-length / upper-case key, entry re-keyed to upper case, payload byte altered, payloads swapped, payload replaced by another valid chunk, truncated, zero-extended, oversized with correct 256KiB+8 prefix, oversized random, dropped, emptied. The real traversal.GetChunkHashes(root, pyramid) (the body of chunkinfo.onChunkPyramidResp) runs against a recording store, in half of the cases on a traversal service that was handed the honest response (whole, or cut short by one entry) just before, as the node's single long-lived service is; oracle: every store.Put satisfies RefCACValid or RefSOCValid for its address; the unaltered pyramid is accepted and its root stored. Non-trivial = at least one effective alteration; distinct by hash of the case"
 
 // witnessOversized is the minimal case of the known finding: a one-chunk file whose
 // only pyramid entry is padded to 256KiB+8 and followed by one more byte.
@@ -464,6 +487,7 @@ func TestC06_Pyramid(t *testing.T) {
 						continue
 					}
 					c := b
+					c.Prior = (tgt + len(k)) % 3
 					if k != "" {
 						if k == "oversize" && known {
 							r.Excluded(sigPyrOversized)
